@@ -175,6 +175,14 @@ def faults(fname, table, kw, jargs, bulk, populated):
         if populated:
             out.append(("pipe_not_at_junction", "elements[1]", dict(copy.deepcopy(kw), junctions=[0, 5], et="pi", elements=[3, 7])))
             out.append(("missing_pipe", "elements[1]", dict(copy.deepcopy(kw), junctions=[0, 1], et="pi", elements=[3, 99])))
+    if fname == "create_valves" and populated:
+        # each pipe is named in the call and touches the junction of the OTHER valve only
+        out.append(("pipe_not_at_junction", "elements(crossed)", dict(copy.deepcopy(kw), junctions=[0, 2], et="pi", elements=[7, 3])))
+    if fname in ("create_pipes", "create_pipes_from_parameters"):
+        out.append(("geodata_wrong_length", "geodata", dict(copy.deepcopy(kw), geodata=[[(0, 0), (1, 1)]] * 3)))
+    if fname == "create_pump_from_parameters":
+        # a type name that is not in the library and no curve data to create it from
+        out.append(("unknown_std_type", "new_std_type_name", dict(from_junction=0, to_junction=1, new_std_type_name="ghost_type")))
     if fname in ("create_heat_consumer", "create_heat_consumers"):
         base = {k: v for k, v in kw.items() if k not in ("qext_w", "controlled_mdot_kg_per_s")}
         one = (lambda v: [v, v]) if bulk else (lambda v: v)
@@ -240,6 +248,8 @@ def cases(tier):
                  "heat_exchangers", "heat_consumers", "junctions"):
         for sector in ("all", "heat") if tier == "quick" else SECTORS:
             out.append({"kind": "bulk_vs_single", "what": name, "sector": sector})
+    for what in ("ext_grids_scalar_none", "valves_et_array", "pipes_type_list_override", "pressure_controls_lists_remote"):
+        out.append({"kind": "bulk_vs_single", "what": what, "sector": "all"})
     for what in ("sinks", "sources", "pipes_from_parameters", "flow_controls"):
         for nexist in (0, 1, 2, 3):
             out.append({"kind": "bulk_series", "what": what, "nexist": nexist})
@@ -342,6 +352,12 @@ def run_case(case):
     if k == "doc":
         fn = getattr(pp, case["fn"])
         fn = inspect.unwrap(fn)
+        if fn.__name__ != case["fn"] and fn.__closure__:
+            # pandapipes.deprecations.deprecated_input wraps without functools.wraps: the documented function is in the closure
+            for cell in fn.__closure__:
+                c = cell.cell_contents
+                if callable(c) and getattr(c, "__name__", "") == case["fn"]:
+                    fn = c
         sig = inspect.signature(fn)
         docd = doc_defaults(fn)
         n = 0
@@ -350,6 +366,9 @@ def run_case(case):
                 continue
             p = sig.parameters[name]
             if p.default is inspect.Parameter.empty:
+                n += 1
+                vs.append(viol("documented_default", "%s: parameter %s is documented with default %r but is a required argument" % (
+                    case["fn"], name, txt), fn=case["fn"], param=name))
                 continue
             want = parse_default(txt)
             got = p.default
@@ -400,6 +419,31 @@ def bulk_vs_single(case):
                 else:
                     for j, p, t, ix in zip([1, 2, 5], [5.0, None, 4.0], [300.0, 310.0, None], [6, 5, 9]):
                         pp.create_ext_grid(net, j, p_bar=p, t_k=t, index=ix)
+            elif what == "ext_grids_scalar_none":
+                # t_k omitted as a whole (scalar None): types are inferred as 'p'
+                if mode == "bulk":
+                    pp.create_ext_grids(net, [1, 2], [5.0, 4.0], None, index=[6, 5])
+                else:
+                    for j, p_, ix in zip([1, 2], [5.0, 4.0], [6, 5]):
+                        pp.create_ext_grid(net, j, p_bar=p_, t_k=None, index=ix)
+            elif what == "valves_et_array":
+                if mode == "bulk":
+                    pp.create_valves(net, [0, 1], [2, 7], np.array(["ju", "pi"]), [40.0, 45.0], index=[8, 6])
+                else:
+                    for j, e, et, d, ix in zip([0, 1], [2, 7], ["ju", "pi"], [40.0, 45.0], [8, 6]):
+                        pp.create_valve(net, j, e, et, d, index=ix)
+            elif what == "pipes_type_list_override":
+                if mode == "bulk":
+                    pp.create_pipes(net, [0, 2], [2, 5], ["80_GGG", "100_GGG"], [0.3, 0.4], u_w_per_m2k=5.0, k_mm=0.5, index=[11, 9])
+                else:
+                    for a, b, t_, L, ix in zip([0, 2], [2, 5], ["80_GGG", "100_GGG"], [0.3, 0.4], [11, 9]):
+                        pp.create_pipe(net, a, b, t_, L, u_w_per_m2k=5.0, k_mm=0.5, index=ix)
+            elif what == "pressure_controls_lists_remote":
+                # plain lists, the controlled junction (2) is neither end of the controller but connected to its to-side
+                if mode == "bulk":
+                    pp.create_pressure_controls(net, [0], [1], [2], 4.0, index=[4])
+                else:
+                    pp.create_pressure_control(net, 0, 1, 2, 4.0, index=4)
             elif what == "pipes":
                 if mode == "bulk":
                     pp.create_pipes(net, [0, 2], [2, 5], "80_GGG", [0.3, 0.4], sections=[1, 3], index=[11, 9])
